@@ -629,6 +629,7 @@ func genConcPlan(r *rand.Rand, tier string) *vfPlan {
 		}
 		return p
 	}
+	coldAdmin := false
 	switch r.IntN(12) {
 	case 0:
 		// the same one-time TOTP code presented by two sessions at once
@@ -638,6 +639,10 @@ func genConcPlan(r *rand.Rand, tier string) *vfPlan {
 		group = []vfStep{{Op: "bootstrapotp", Sess: "m1"}, {Op: "bootstrapotp", Sess: "m2"}}
 		if chance(r, 0.4) {
 			group[1] = vfStep{Op: "newbootstrap", User: "mallory"}
+			if chance(r, 0.5) {
+				group[0] = vfStep{Op: "adduser", User: "newbie"}
+				coldAdmin = true
+			}
 		}
 	case 2, 5:
 		// the same hardware-token assertion delivered twice
@@ -657,6 +662,8 @@ func genConcPlan(r *rand.Rand, tier string) *vfPlan {
 		if chance(r, 0.5) {
 			group[1] = vfStep{Op: "deluser", User: "newbie"}
 		}
+		// the administrator's cached standing (5 minutes) has lapsed: both requests re-establish it
+		coldAdmin = chance(r, 0.6)
 	default:
 		// half of the free groups pair a token-management request (whose acknowledged effect is easy to observe) with any other request of the same user
 		mgmtFirst := chance(r, 0.5)
@@ -714,10 +721,35 @@ func genConcPlan(r *rand.Rand, tier string) *vfPlan {
 			p.Steps = append(p.Steps, vfStep{Op: "pushstart", Sess: g.Sess}, vfStep{Op: "approve", User: "alice"})
 		}
 	}
+	if coldAdmin {
+		p.Steps = append(p.Steps, vfStep{Op: "advance", D: pick(r, []string{"5m1s", "6m", "11m"})})
+	}
+	// event-stream subscribers come and go around requests that publish (every login does)
+	subs := chance(r, 0.12)
+	if subs && chance(r, 0.5) {
+		p.Steps = append(p.Steps, vfStep{Op: "subscribe", N: 1, A: "fast"})
+	}
+	if subs {
+		if len(group) >= 3 || chance(r, 0.5) {
+			group = group[:len(group)-1]
+		}
+		if chance(r, 0.5) {
+			group = append(group, vfStep{Op: "login", Sess: "b1v", User: "bob"})
+		}
+		if len(p.Steps) > 0 && p.Steps[len(p.Steps)-1].Op == "subscribe" && chance(r, 0.5) {
+			group = append(group, vfStep{Op: "unsubscribe", N: 1})
+		} else {
+			group = append(group, vfStep{Op: "subscribe", N: 3, A: "fast"})
+		}
+	}
 	for i := range group {
 		group[i].Par = 1
 	}
 	p.Steps = append(p.Steps, group...)
+	if subs {
+		p.Steps = append(p.Steps, vfStep{Op: "login", Sess: "b1y", User: "bob"}, vfStep{Op: "subscribe", N: 2, A: "fast"}, vfStep{Op: "login", Sess: "b1z", User: "bob"},
+			vfStep{Op: "unsubscribe", N: int64(1 + r.IntN(2))}, vfStep{Op: "login", Sess: "b1w", User: "bob"})
+	}
 	// the tape: random choices; the scheduler normalises it to the choices taken.  A few entries (>= 100) let
 	// simulated time pass at that decision: one request stalls for seconds in the middle while the other completes
 	oneTime := len(group) >= 2 && (group[0].Op == "totp" || group[0].Op == "bootstrapotp" || group[0].Op == "u2fsignresp") && group[0].Op == group[1].Op
